@@ -706,36 +706,54 @@ theorem runHandler_inb {h0 : Heap} (hc : closedHeap h0 = true) (hn : String) {v 
           · exact itemsAttrIter_inb hc hr
           · cases hr
 
-theorem applyHandler_ext {h0 h : Heap} (c : Ctx h0 h) (env : Env) (ans : Except IterErr String) {v : Val}
+/-- **the law an `iterate` handler must meet** (relative to the input heap `h0`): what calling it on
+    an input object yields is determined by the input objects — it only reads them — and consists
+    of input values (objects reachable from the target, characters of a string) -/
+structure HandlerLaw (h0 : Heap) (env : Env) : Prop where
+  ext : ∀ (hn : String) {h : Heap} {v : Val}, Ctx h0 h → Val.inb h0.length v = true → env.run hn h v = env.run hn h0 v
+  inb : ∀ (hn : String) {v : Val} {items : List Val}, Val.inb h0.length v = true →
+    env.run hn h0 v = some items → ∀ x ∈ items, Val.inb h0.length x = true
+
+/-- the handlers of the catalogue (`iter`, reverse, tail, list, the `items` attribute, a raising one)
+    meet the law -/
+theorem runHandler_law {h0 : Heap} (hc : closedHeap h0 = true) {env : Env} (hr : env.run = runHandler) :
+    HandlerLaw h0 env :=
+  ⟨fun hn _ _ c hv => by rw [hr]; exact runHandler_ext c hn hv,
+   fun hn _ _ hv h => by rw [hr] at h; exact runHandler_inb hc hn hv h⟩
+
+theorem applyHandler_ext {h0 h : Heap} (c : Ctx h0 h) {env : Env} (hH : HandlerLaw h0 env)
+    (ans : Except IterErr String) {v : Val}
     (hv : Val.inb h0.length v = true) : applyHandler env ans h v = applyHandler env ans h0 v := by
   cases ans with
   | error e => rfl
-  | ok hn => simp only [applyHandler, runHandler_ext c hn hv]
+  | ok hn => simp only [applyHandler, hH.ext hn c hv]
 
-theorem applyHandler_inb {h0 : Heap} (hc : closedHeap h0 = true) (env : Env) (ans : Except IterErr String)
+theorem applyHandler_inb {h0 : Heap} {env : Env} (hH : HandlerLaw h0 env) (ans : Except IterErr String)
     {v : Val} (hv : Val.inb h0.length v = true) {items : List Val}
     (ht : applyHandler env ans h0 v = .ok items) : ∀ x ∈ items, Val.inb h0.length x = true := by
   cases ans with
   | error e => cases ht
   | ok hn =>
     simp only [applyHandler] at ht
-    cases hr : runHandler hn h0 v with
+    cases hr : env.run hn h0 v with
     | none => simp [hr] at ht
     | some its =>
       simp only [hr] at ht
       injection ht with ht; subst ht
-      exact runHandler_inb hc hn hv hr
+      exact hH.inb hn hv hr
 
-theorem targetIter_ext {h0 h : Heap} (c : Ctx h0 h) (env : Env) {v : Val} (hv : Val.inb h0.length v = true) :
+theorem targetIter_ext {h0 h : Heap} (c : Ctx h0 h) {env : Env} (hH : HandlerLaw h0 env) {v : Val}
+    (hv : Val.inb h0.length v = true) :
     targetIter env h v = targetIter env h0 v := by
-  simp only [targetIter, clsName_ext c hv, applyHandler_ext c env _ hv]
+  simp only [targetIter, clsName_ext c hv, applyHandler_ext c hH _ hv]
 
-theorem targetIter_inb {h0 : Heap} (hc : closedHeap h0 = true) (env : Env) {v : Val}
+theorem targetIter_inb {h0 : Heap} {env : Env} (hH : HandlerLaw h0 env) {v : Val}
     (hv : Val.inb h0.length v = true) {items : List Val} (ht : targetIter env h0 v = .ok items) :
     ∀ x ∈ items, Val.inb h0.length x = true :=
-  applyHandler_inb hc env _ hv ht
+  applyHandler_inb hH _ hv ht
 
-theorem refItems_inb {h0 : Heap} (hc : closedHeap h0 = true) (env : Env) {sub : List Val} {target : Val}
+theorem refItems_inb {h0 : Heap} (hc : closedHeap h0 = true) {env : Env} (hH : HandlerLaw h0 env)
+    {sub : List Val} {target : Val}
     (hs : ∀ k ∈ sub, Val.inb h0.length k = true) (ht : Val.inb h0.length target = true)
     {items : List Val} (hr : refItems env h0 sub target = .ok items) :
     ∀ x ∈ items, Val.inb h0.length x = true := by
@@ -750,7 +768,7 @@ theorem refItems_inb {h0 : Heap} (hc : closedHeap h0 = true) (env : Env) {sub : 
     | ok its =>
       simp only [hti] at hr
       injection hr with hr; subst hr
-      exact targetIter_inb hc env (this.2 t he) hti
+      exact targetIter_inb hH (this.2 t he) hti
 
 /-! ### one evaluation -/
 
@@ -906,7 +924,7 @@ theorem runFold_spec {h0 h : Heap} (c : Ctx h0 h) (s : FoldSpec) (hs : InitOK h0
       exact foldKind_spec c s.init s.op hs hi
   | merge => exact mergeKind_spec c s.init s.op hs hi
 
-theorem glomit_spec {h0 h : Heap} (c : Ctx h0 h) (env : Env)
+theorem glomit_spec {h0 h : Heap} (c : Ctx h0 h) (env : Env) (hH : HandlerLaw h0 env)
     (hcatch : regLookup env.foldCatch "UnregisteredTarget" = some "FoldError")
     (s : FoldSpec) (hs : InitOK h0 s.init) {target : Val}
     (hsub : ∀ k ∈ s.sub, Val.inb h0.length k = true) (ht : Val.inb h0.length target = true) :
@@ -919,13 +937,13 @@ theorem glomit_spec {h0 h : Heap} (c : Ctx h0 h) (env : Env)
   | error e => exact ⟨Frame.rfl' (Nat.le_refl _), rfl⟩
   | ok t =>
     have htin := hes.2 t he
-    simp only [targetIter_ext c env htin]
+    simp only [targetIter_ext c hH htin]
     cases hti : targetIter env h0 t with
     | error ie =>
       cases ie with
       | unregistered => exact ⟨Frame.rfl' (Nat.le_refl _), by simp [convertIterErr, hcatch, ResRel]⟩
       | raised cls => exact ⟨Frame.rfl' (Nat.le_refl _), rfl⟩
-    | ok items => exact runFold_spec c s hs (targetIter_inb c.closed env htin hti)
+    | ok items => exact runFold_spec c s hs (targetIter_inb hH htin hti)
 
 /-! ### flatten(levels=n): n-fold join -/
 
@@ -944,6 +962,7 @@ theorem chainEval_single (env : Env) (s : FoldSpec) (h : Heap) (cur : Val) :
 /-- chain objects are iterated with `iter`, and a failing `iter` surfaces as TypeError -/
 structure ChainOK (env : Env) : Prop where
   lk : env.lk "chain" = .ok "iter"
+  iter : env.run "iter" = rawIter
   conv : regLookup env.iterCatch "Exception" = some "TypeError"
 
 /-- the hypotheses on the `init` argument of Flatten / flatten() -/
@@ -974,8 +993,9 @@ theorem targetIter_chain {h0 h : Heap} (c : Ctx h0 h) (env : Env)
       | some ys => .ok ys
       | none => .error (.raised "TypeError") := by
   have h1 : (Val.ref a).clsName h = "chain" := by simp [Val.clsName, ha, Obj.cls]
-  have h3 : runHandler "iter" h (.ref a) = joinWith (rawIter1 h0) xs := by
-    simp [runHandler, rawIter, ha, joinWith_ext c hx]
+  have h3 : env.run "iter" h (.ref a) = joinWith (rawIter1 h0) xs := by
+    rw [hchain.iter]
+    simp [rawIter, ha, joinWith_ext c hx]
   simp only [targetIter, applyHandler, h1, hchain.lk, h3, handlerFailure, hchain.conv]
   cases joinWith (rawIter1 h0) xs <;> rfl
 
@@ -1001,7 +1021,7 @@ theorem joinN_succ (h0 : Heap) (n : Nat) (xs : List Val) :
       | none => none := rfl
 
 /-- from a chain object on: `k` lazy levels and the final one are `k+1` joins -/
-theorem chainStage_spec {h0 : Heap} (hc : closedHeap h0 = true) (env : Env)
+theorem chainStage_spec {h0 : Heap} (hc : closedHeap h0 = true) (env : Env) (hH : HandlerLaw h0 env)
     (hchain : ChainOK env)
     (hcatch : regLookup env.foldCatch "UnregisteredTarget" = some "FoldError")
     (init : InitArg) (hinit : InitArgOK h0 init) :
@@ -1056,7 +1076,7 @@ theorem refFlattenFn_pos (env : Env) (h0 : Heap) (sub : List Val) (init : InitAr
   | error e => rfl
   | ok items => exact refAfter_eq h0 init _
 
-theorem flattenFn_spec {h0 h : Heap} (c : Ctx h0 h) (env : Env) {levels : Int}
+theorem flattenFn_spec {h0 h : Heap} (c : Ctx h0 h) (env : Env) (hH : HandlerLaw h0 env) {levels : Int}
     (hchain : 2 ≤ levels → ChainOK env)
     (hcatch : regLookup env.foldCatch "UnregisteredTarget" = some "FoldError")
     (sub : List Val) (init : InitArg) (hinit : InitArgOK h0 init) {target : Val}
@@ -1087,7 +1107,7 @@ theorem flattenFn_spec {h0 h : Heap} (c : Ctx h0 h) (env : Env) {levels : Int}
         cases hk : levels.toNat - 1 with
         | zero =>
           simp only [List.replicate, List.nil_append, chainEval_single, joinN]
-          have hg := glomit_spec c env hcatch (mkFlatten [] init) hfin (target := t)
+          have hg := glomit_spec c env hH hcatch (mkFlatten [] init) hfin (target := t)
             (by cases init <;> simp [mkFlatten]) htin
           have hsub' : (mkFlatten [] init).sub = [] := by cases init <;> rfl
           simp only [refSpec, refItems, hsub', evalSub] at hg
@@ -1101,7 +1121,7 @@ theorem flattenFn_spec {h0 h : Heap} (c : Ctx h0 h) (env : Env) {levels : Int}
               | .ok items => (.ok (.ref h.length), h ++ [.tuple "chain" items])
               | .error ie => (.error (convertIterErr env ie), h) := by
             unfold glomit
-            simp only [mkFlatten, evalSub, targetIter_ext c env htin]
+            simp only [mkFlatten, evalSub, targetIter_ext c hH htin]
             cases targetIter env h0 t <;> rfl
           rw [hg]
           cases hti : targetIter env h0 t with
@@ -1112,9 +1132,9 @@ theorem flattenFn_spec {h0 h : Heap} (c : Ctx h0 h) (env : Env) {levels : Int}
           | ok items =>
             simp only
             have hfr : Frame h.length h (h ++ [Obj.tuple "chain" items]) := Frame.append (Nat.le_refl _) _
-            have := chainStage_spec c.closed env (hchain (by omega)) hcatch init hinit k
+            have := chainStage_spec c.closed env hH (hchain (by omega)) hcatch init hinit k
               (h ++ [.tuple "chain" items]) h.length items (c.frame.trans c.frame.1 hfr)
-              List.getElem?_concat_length (targetIter_inb c.closed env htin hti)
+              List.getElem?_concat_length (targetIter_inb hH htin hti)
             exact ⟨hfr.trans hfr.1 this.1, ResRel.mono hfr.1 this.2⟩
 
 /-! ### Merge's constructor, merge() -/
@@ -1172,7 +1192,7 @@ theorem mkMerge_spec {h0 h : Heap} (c : Ctx h0 h) (sub : List Val) (init : Init)
   | iadd => exact ⟨Frame.rfl' (Nat.le_refl _), rfl⟩
   | firstWins => exact ⟨Frame.rfl' (Nat.le_refl _), rfl⟩
 
-theorem mergeFn_spec {h0 h : Heap} (c : Ctx h0 h) (env : Env)
+theorem mergeFn_spec {h0 h : Heap} (c : Ctx h0 h) (env : Env) (hH : HandlerLaw h0 env)
     (hcatch : regLookup env.foldCatch "UnregisteredTarget" = some "FoldError")
     (sub : List Val) (init : Init) (op : MergeOpArg) (hinit : InitOK h0 init) {target : Val}
     (hsub : ∀ k ∈ sub, Val.inb h0.length k = true) (ht : Val.inb h0.length target = true) :
@@ -1192,7 +1212,7 @@ theorem mergeFn_spec {h0 h : Heap} (c : Ctx h0 h) (env : Env)
     rw [hro] at hm
     simp only [hm.2]
     have c1 : Ctx h0 h1 := c.step c.frame.1 hm.1
-    have := glomit_spec c1 env hcatch ⟨.merge, sub, init, o, false⟩ hinit hsub ht
+    have := glomit_spec c1 env hH hcatch ⟨.merge, sub, init, o, false⟩ hinit hsub ht
     exact ⟨hm.1.trans hm.1.1 this.1, ResRel.mono hm.1.1 this.2⟩
 
 /-! ### sequences of evaluations and what an observer sees -/
@@ -1640,13 +1660,13 @@ theorem WFConv_parts {env : Env} (hwf : WFConv env = true) :
   simp only [WFConv, Bool.and_eq_true, beq_iff_eq] at hwf
   exact ⟨hwf.1.1.1.1, hwf.1.1.1.2, hwf.1.1.2⟩
 
-theorem WF_parts {env : Env} (hwf : WF env = true) :
+theorem WF_parts {env : Env} (hwf : WF env = true) (hiter : env.run "iter" = rawIter) :
     regLookup env.foldCatch "UnregisteredTarget" = some "FoldError" ∧
     ChainOK env ∧
     env.excTable.isSub "FoldError" "GlomError" = true := by
   simp only [WF, Bool.and_eq_true, chainIter, decide_eq_true_eq] at hwf
   obtain ⟨h1, h2, h3⟩ := WFConv_parts hwf.1
-  exact ⟨h1, ⟨hwf.2, h2⟩, h3⟩
+  exact ⟨h1, ⟨hwf.2, hiter, h2⟩, h3⟩
 
 theorem observeAll_errors (env : Env) (n0 : Nat) (hfin : Heap) (e : Err) :
     ∀ (targets : List Val) (earlier : List (Except Err Val)),
@@ -1694,6 +1714,7 @@ def Prog.isMerge : Prog → Bool
 /-- every program but `Merge(...)` (which has a construction phase) realises its reference on
     every later heap, under every handler table meeting the hypotheses -/
 theorem progEval_ok {h0 : Heap} {p : Prog} (hp : ProgOK h0 p) (hm : p.isMerge = false) (env : Env)
+    (hH : HandlerLaw h0 env)
     (hcatch : regLookup env.foldCatch "UnregisteredTarget" = some "FoldError")
     (hchain : p.usesChain = true → ChainOK env) :
     EvalOK h0 (progEval p env) (refProg env h0 p) := by
@@ -1701,13 +1722,13 @@ theorem progEval_ok {h0 : Heap} {p : Prog} (hp : ProgOK h0 p) (hm : p.isMerge = 
   | fold sub i op =>
     have hs : ∀ k ∈ sub, Val.inb h0.length k = true := fun k hk => hp.inb k (by simp [progVals, hk])
     have hi : InitOK h0 i := ⟨hp.allocates, hp.wf, fun v hv => hp.inb v (by simp [progVals, hv])⟩
-    exact fun h t c ht' => glomit_spec c env hcatch (mkFold sub i op) hi hs ht'
+    exact fun h t c ht' => glomit_spec c env hH hcatch (mkFold sub i op) hi hs ht'
   | sum sub i =>
     have hs : ∀ k ∈ sub, Val.inb h0.length k = true := fun k hk => hp.inb k (by simp [progVals, hk])
     have hi : InitOK h0 i := ⟨hp.allocates, hp.wf, fun v hv => hp.inb v (by simp [progVals, hv])⟩
-    exact fun h t c ht' => glomit_spec c env hcatch (mkSum sub i) hi hs ht'
+    exact fun h t c ht' => glomit_spec c env hH hcatch (mkSum sub i) hi hs ht'
   | count =>
-    exact fun h t c ht' => glomit_spec c env hcatch mkCount (InitOK.plain h0 rfl rfl rfl) (by simp [mkCount]) ht'
+    exact fun h t c ht' => glomit_spec c env hH hcatch mkCount (InitOK.plain h0 rfl rfl rfl) (by simp [mkCount]) ht'
   | flatten sub i =>
     have hs : ∀ k ∈ (mkFlatten sub i).sub, Val.inb h0.length k = true := by
       intro k hk; apply hp.inb; cases i <;> simp [progVals, mkFlatten] at hk ⊢ <;> exact Or.inl hk
@@ -1715,32 +1736,32 @@ theorem progEval_ok {h0 : Heap} {p : Prog} (hp : ProgOK h0 p) (hm : p.isMerge = 
       cases i with
       | lazy => trivial
       | init j => exact ⟨hp.allocates, hp.wf, fun v hv => hp.inb v (by simp [progVals, InitArg.vals, hv])⟩
-    exact fun h t c ht' => glomit_spec c env hcatch (mkFlatten sub i) (hi.mk' sub) hs ht'
+    exact fun h t c ht' => glomit_spec c env hH hcatch (mkFlatten sub i) (hi.mk' sub) hs ht'
   | flattenFn sub i l =>
     have hs : ∀ k ∈ sub, Val.inb h0.length k = true := fun k hk => hp.inb k (by simp [progVals, hk])
     have hi : InitArgOK h0 i := by
       cases i with
       | lazy => trivial
       | init j => exact ⟨hp.allocates, hp.wf, fun v hv => hp.inb v (by simp [progVals, InitArg.vals, hv])⟩
-    exact fun h t c ht' => flattenFn_spec c env (fun hl => hchain (by simp [Prog.usesChain, hl])) hcatch sub i hi hs ht'
+    exact fun h t c ht' => flattenFn_spec c env hH (fun hl => hchain (by simp [Prog.usesChain, hl])) hcatch sub i hi hs ht'
   | mergeFn sub i op =>
     have hs : ∀ k ∈ sub, Val.inb h0.length k = true := fun k hk => hp.inb k (by simp [progVals, hk])
     have hi : InitOK h0 i := ⟨hp.allocates, hp.wf, fun v hv => hp.inb v (by simp [progVals, hv])⟩
-    exact fun h t c ht' => mergeFn_spec c env hcatch sub i op hi hs ht'
+    exact fun h t c ht' => mergeFn_spec c env hH hcatch sub i op hi hs ht'
   | merge sub i op => cases hm
 
 /-- **the whole run under one handler table**: nothing that existed changes, and an observer sees
     exactly the reference -/
 theorem runProg_spec (env : Env) (hwf : WF env = true) (h0 : Heap) (hc : closedHeap h0 = true)
-    (p : Prog) (hp : ProgOK h0 p)
+    (hH : HandlerLaw h0 env) (hiter : env.run "iter" = rawIter) (p : Prog) (hp : ProgOK h0 p)
     (targets : List Val) (ht : ∀ t ∈ targets, Val.inb h0.length t = true) :
     Frame h0.length h0 (runProg env p targets h0).2 ∧
       observeAll env h0.length (runProg env p targets h0).2 [] (runProg env p targets h0).1 =
         targets.map (expectR env h0 p) := by
-  obtain ⟨hcatch, hchain, _⟩ := WF_parts hwf
+  obtain ⟨hcatch, hchain, _⟩ := WF_parts hwf hiter
   have c0 := Ctx.base hc
   by_cases hm : p.isMerge = false
-  · have hok := progEval_ok hp hm env hcatch (fun _ => hchain)
+  · have hok := progEval_ok hp hm env hH hcatch (fun _ => hchain)
     have := evalAll_observe hc env hok targets ht h0 c0
     cases p with
     | merge sub i op => cases hm
@@ -1768,7 +1789,7 @@ theorem runProg_spec (env : Env) (hwf : WF env = true) (h0 : Heap) (hc : closedH
         simp only [hmm.2]
         have c1 : Ctx h0 h1 := ⟨hc, hmm.1⟩
         have := evalAll_observe hc env (ref := refSpec env h0 ⟨.merge, sub, i, o, false⟩)
-          (fun h t c ht' => glomit_spec c env hcatch ⟨.merge, sub, i, o, false⟩ hi hs ht') targets ht h1 c1
+          (fun h t c ht' => glomit_spec c env hH hcatch ⟨.merge, sub, i, o, false⟩ hi hs ht') targets ht h1 c1
         have hexp : List.map (expectR env h0 (Prog.merge sub i op)) targets =
             targets.map (fun t => showRef env h0 (refSpec env h0 ⟨.merge, sub, i, o, false⟩ t)) :=
           List.map_congr_left (fun t _ => by simp [expectR, refProg, refMerge, hro])
@@ -2198,15 +2219,16 @@ theorem runProgR_eq (H : Hier) (env : Env) (p : Prog) (hm : p.isMerge = false) (
 
 /-- the hypotheses of a history on the handler tables: whenever an evaluation happens and the
     program iterates chain objects of its own making, those are iterated with `iter` -/
-def HistOK (H : Hier) (env : Env) (p : Prog) (events : List Event) (r : Reg) : Prop :=
-  GoodAlong H env (fun e => regLookup e.foldCatch "UnregisteredTarget" = some "FoldError" ∧
+def HistOK (H : Hier) (env : Env) (h0 : Heap) (p : Prog) (events : List Event) (r : Reg) : Prop :=
+  GoodAlong H env (fun e => HandlerLaw h0 e ∧ regLookup e.foldCatch "UnregisteredTarget" = some "FoldError" ∧
     (p.usesChain = true → ChainOK e)) events r
 
-theorem histOK_of_bool {H : Hier} {env : Env} {p : Prog}
+theorem histOK_of_bool {H : Hier} {env : Env} {h0 : Heap} {p : Prog} (hH : HandlerLaw h0 env)
+    (hiter : env.run "iter" = rawIter)
     (hcatch : regLookup env.foldCatch "UnregisteredTarget" = some "FoldError")
     (hconv : regLookup env.iterCatch "Exception" = some "TypeError") :
     ∀ (events : List Event) (r : Reg), (p.usesChain = false ∨ chainIterAlong H env events r = true) →
-      HistOK H env p events r := by
+      HistOK H env h0 p events r := by
   intro events
   induction events with
   | nil => intro _ _; trivial
@@ -2214,12 +2236,12 @@ theorem histOK_of_bool {H : Hier} {env : Env} {p : Prog}
     intro r hh
     cases e with
     | eval t =>
-      refine ⟨⟨hcatch, ?_⟩, ih r ?_⟩
+      refine ⟨⟨⟨hH.ext, hH.inb⟩, hcatch, ?_⟩, ih r ?_⟩
       · intro hu
         rcases hh with hh | hh
         · rw [hh] at hu; cases hu
         · simp only [chainIterAlong, Bool.and_eq_true, chainIter, decide_eq_true_eq] at hh
-          exact ⟨hh.1, hconv⟩
+          exact ⟨hh.1, hiter, hconv⟩
       · rcases hh with hh | hh
         · exact Or.inl hh
         · simp only [chainIterAlong, Bool.and_eq_true] at hh; exact Or.inr hh.2
@@ -2235,7 +2257,7 @@ theorem histOK_of_bool {H : Hier} {env : Env} {p : Prog}
 theorem runProgR_spec (H : Hier) (env : Env) (hconv : WFConv env = true) (h0 : Heap) (hc : closedHeap h0 = true)
     (p : Prog) (hp : ProgOK h0 p) (events : List Event)
     (ht : ∀ t ∈ Event.targets events, Val.inb h0.length t = true)
-    (r : Reg) (hcr : CacheOK H r) (hh : HistOK H env p events r) :
+    (r : Reg) (hcr : CacheOK H r) (hh : HistOK H env h0 p events r) :
     Frame h0.length h0 (runProgR H env p events r h0).2.1 ∧
       observeAll env h0.length (runProgR H env p events r h0).2.1 [] (runProgR H env p events r h0).1 =
         expectAll H env h0 p events r := by
@@ -2245,9 +2267,9 @@ theorem runProgR_spec (H : Hier) (env : Env) (hconv : WFConv env = true) (h0 : H
   by_cases hm : p.isMerge = false
   · rw [runProgR_eq H env p hm]
     have := evalEvents_spec hc H env (progEvalR_bridge H env p)
-      (good := fun e => regLookup e.foldCatch "UnregisteredTarget" = some "FoldError" ∧
+      (good := fun e => HandlerLaw h0 e ∧ regLookup e.foldCatch "UnregisteredTarget" = some "FoldError" ∧
         (p.usesChain = true → ChainOK e))
-      (fun e he => progEval_ok hp hm e he.1 he.2) events ht r h0 hcr c0 hh
+      (fun e he => progEval_ok hp hm e he.1 he.2.1 he.2.2) events ht r h0 hcr c0 hh
     exact ⟨this.1, this.2 [] (by simp) _ (Frame.rfl' (Nat.le_refl _))⟩
   · cases p with
     | merge sub i op =>
@@ -2282,9 +2304,9 @@ theorem runProgR_spec (H : Hier) (env : Env) (hconv : WFConv env = true) (h0 : H
         have c1 : Ctx h0 h1 := ⟨hc, hmm.1⟩
         have := evalEvents_spec hc H env (glomitR_bridge H env ⟨.merge, sub, i, o, false⟩)
           (ref := fun e => refSpec e h0 ⟨.merge, sub, i, o, false⟩)
-          (good := fun e => regLookup e.foldCatch "UnregisteredTarget" = some "FoldError" ∧
+          (good := fun e => HandlerLaw h0 e ∧ regLookup e.foldCatch "UnregisteredTarget" = some "FoldError" ∧
             ((Prog.merge sub i op).usesChain = true → ChainOK e))
-          (fun e he => fun h t c ht' => glomit_spec c e he.1 ⟨.merge, sub, i, o, false⟩ hi hs ht')
+          (fun e he => fun h t c ht' => glomit_spec c e he.1 he.2.1 ⟨.merge, sub, i, o, false⟩ hi hs ht')
           events ht r h1 hcr c1 hh
         have hexp : ∀ (es : List Event) (r : Reg),
             expectList H env h0 (fun e => refProg e h0 (Prog.merge sub i op)) es r =
